@@ -1,9 +1,8 @@
 #!/bin/sh
 # run_mutants.sh <PID>...  : try every incoming mutant of the given properties, append to .build/mutant_results.txt
 for PID in "$@"; do
-  for P in /verif/.build/incoming/$PID/m*.diff /verif/seeded/$PID/*/patch.diff; do
+  for P in /verif/.build/incoming/$PID/m*.diff; do
     [ -f "$P" ] || continue
     /verif/tools/try_mutant.sh "$PID" "$P" quick > /verif/.build/mutant_$PID_$(basename $(dirname $P))_$(basename $P).log 2>&1
-    grep "^RESULT" /verif/.build/mutant_$PID_$(basename $(dirname $P))_$(basename $P).log >> /verif/.build/mutant_results.txt
   done
 done
